@@ -41,6 +41,16 @@ func (x *Exec) funcVarCall(f *frame, in ssa.Instruction, c *ssa.CallCommon, args
 			}
 		}
 	}
+	// `opt purecalls <name>` for a function-valued parameter or local of that name
+	if al, ok := ld.X.(*ssa.Alloc); ok && x.fc != nil && al.Comment != "" {
+		for _, pf := range strings.Fields(x.fc.Opts["purecalls"]) {
+			if pf != al.Comment {
+				continue
+			}
+			x.assumed[fmt.Sprintf("%s: calls through the function value %q do not change the state this contract speaks about (arbitrary result)", x.short, al.Comment)] = true
+			return x.resultVal(st, c.Signature(), "fv_"+al.Comment), true
+		}
+	}
 	g, ok := ld.X.(*ssa.Global)
 	if !ok {
 		return Val{}, false
